@@ -132,10 +132,12 @@ CHECKS["C11"] = dict(
     note="Counts adopted from a host-fabricated snapshot containing zero entries are outside the claim.",
     instances=dict(
         quick=[_world("VHNextStep", DEPTH=1, QLEN=1, BUDGET=1, HEAD=100, must_reach=["jumped", "fail"]),
-               _world("VHVisitedFns", DEPTH=1, QLEN=1, HEAD=100, must_reach=["visited-fn", "never-tracked", "jumped"])],
+               _world("VHVisitedFns", DEPTH=1, QLEN=1, HEAD=100, must_reach=["visited-fn", "never-tracked", "jumped", "other-runner"]),
+               _world("VHVisitsAcrossRestore", DEPTH=1, QLEN=1, VISCFG=1, must_reach=["tracked-after-restore", "untracked-after-restore"])],
         thorough=[_world("VHNextStep", DEPTH=2, QLEN=2, BUDGET=1, HEAD=100, workers=16, must_reach=["jumped", "fail"]),
                   _world("VHNextStep", DEPTH=1, QLEN=2, BUDGET=1, workers=16, must_reach=["jumped", "fail"]),
-                  _world("VHVisitedFns", DEPTH=2, QLEN=1, HEAD=100, workers=16, must_reach=["visited-fn", "never-tracked", "jumped"])]),
+                  _world("VHVisitedFns", DEPTH=2, QLEN=1, HEAD=100, workers=16, must_reach=["visited-fn", "never-tracked", "jumped", "other-runner"]),
+                  _world("VHVisitsAcrossRestore", DEPTH=2, QLEN=2, CMDCHAN=1, VISCFG=1, workers=16, must_reach=["tracked-after-restore", "untracked-after-restore"])]),
     assumptions=["visit-map invariant: present keys are node titles with count in [1, 2^40)"],
 )
 CHECKS["C12"] = dict(
@@ -204,10 +206,10 @@ CHECKS["C07"] = dict(
          "random functions and host storers are outside the claim.",
     instances=dict(
         quick=[_world("VHSnapshotAtJump", DEPTH=1, QLEN=1, HEAD=100, VARSNAP=1, must_reach=["jumped"]),
-               _world("VHRestore", DEPTH=1, QLEN=1, CMDCHAN=1, VISCFG=1, must_reach=["restored", "unknown-node", "jump-after-restore"])],
+               _world("VHRestore", DEPTH=1, QLEN=1, CMDCHAN=1, VISCFG=1, must_reach=["restored", "unknown-node", "jump-after-restore", "visit-functions-after-restore"])],
         thorough=[_world("VHSnapshotAtJump", DEPTH=2, QLEN=2, HEAD=100, VARSNAP=1, workers=16, must_reach=["jumped"]),
                   _world("VHSnapshotAtJump", DEPTH=1, QLEN=1, BUDGET=1, VARSNAP=1, workers=16, must_reach=["jumped"]),
-                  _world("VHRestore", DEPTH=2, QLEN=2, CMDCHAN=1, workers=16, must_reach=["restored", "unknown-node", "jump-after-restore"])]),
+                  _world("VHRestore", DEPTH=2, QLEN=2, CMDCHAN=1, workers=16, must_reach=["restored", "unknown-node", "jump-after-restore", "visit-functions-after-restore"])]),
     assumptions=["snapshot: node name 2 symbolic bytes, variables b0/x/only with symbolic values, visit counts absent or in [1,2^40)"],
 )
 
@@ -292,14 +294,16 @@ CHECKS["C13"] = dict(
         quick=[_mk("VHMarkupTemplate", ITEMS=2, PROPS=0, must_reach=["parsed", "attribute"]),
                _mk("VHMarkupTemplate", ITEMS=3, PROPS=0, SHORTHAND=0, workers=16, must_reach=["parsed", "attribute", "nonempty-attribute"]),
                _mk("VHCharacterPrefix", must_reach=["character"]),
-               _mk("VHReplacement", must_reach=["select", "plural", "ordinal", "nomarkup"]),
+               _mk("VHReplacement", must_reach=["select", "plural", "ordinal", "nomarkup", "second-nomarkup", "second-select"]),
+               _mk("VHEdgeWhitespace", must_reach=["edge"]),
                _mk("VHSelfClosingTrim", must_reach=["selfclosing"])],
         thorough=[_mk("VHMarkupTemplate", ITEMS=2, PROPS=0, workers=16, must_reach=["parsed", "attribute"]),
                   _mk("VHMarkupTemplate", ITEMS=2, PROPS=1, workers=16, solver="cvc5", must_reach=["parsed", "attribute"]),
                   _mk("VHMarkupTemplate", ITEMS=4, PROPS=0, SHORTHAND=0, workers=16, must_reach=["parsed", "attribute", "nonempty-attribute"]),
                   _mk("VHMarkupTemplate", ITEMS=5, PROPS=0, SHORTHAND=0, workers=16, must_reach=["parsed", "attribute", "nonempty-attribute"]),
                   _mk("VHCharacterPrefix", must_reach=["character"]),
-                  _mk("VHReplacement", must_reach=["select", "plural", "ordinal", "nomarkup"]),
+                  _mk("VHReplacement", must_reach=["select", "plural", "ordinal", "nomarkup", "second-nomarkup", "second-select"]),
+                  _mk("VHEdgeWhitespace", must_reach=["edge"]),
                   _mk("VHSelfClosingTrim", must_reach=["selfclosing"])]),
     assumptions=["plain text starts and ends with a non-space character", "characters: printable ASCII except [ ] \\\\ :, U+00E1..U+00FF, space"],
 )
